@@ -8,3 +8,4 @@ import SynKitProofs.Props.C15
 #print axioms SynKit.Store.remove_lookup_other
 #print axioms SynKit.Store.removeSpecies_lookup
 #print axioms SynKit.Store.incidence_spec
+#print axioms SynKit.Store.merge_edges
